@@ -26,8 +26,10 @@ VARIABLES l,     \* next line of TraceLog
           bad,   \* sequence of [line, aspects] for rejected events
           cov,   \* instruction-class tag -> number of accepted steps
           rs,    \* progress of the Run call being expanded (silent steps)
+          slot,  \* a context remembered by a "mark" event (C07: final state of the undisturbed run)
+          kf,    \* occurrences of known findings (named deviations), capped
           done
-vars == <<l, c, bad, cov, rs, done>>
+vars == <<l, c, bad, cov, rs, slot, kf, done>>
 
 RegOrder == <<"A", "F", "B", "C", "D", "E", "H", "L", "A_", "F_", "B_", "C_", "D_", "E_", "H_", "L_",
               "IXH", "IXL", "IYH", "IYL", "SP", "PC", "I", "R">>
@@ -116,14 +118,15 @@ Bump(f, k) == IF k \in DOMAIN f THEN [f EXCEPT ![k] = @ + 1] ELSE (k :> 1) @@ f
 ----------------------------------------------------------------------------
 Ev == TraceLog[l]
 IsEv(e) == l <= Len(TraceLog) /\ Ev.e = e /\ l' = l + 1 /\ done' = FALSE /\ UNCHANGED rs
+KeepSK == UNCHANGED <<slot, kf>>
 
 TraceInit ==
-  /\ l = 1 /\ c = [tag |-> "uninitialised"] /\ bad = <<>> /\ cov = <<>> /\ done = FALSE /\ rs = [on |-> FALSE]
+  /\ l = 1 /\ c = [tag |-> "uninitialised"] /\ bad = <<>> /\ cov = <<>> /\ done = FALSE /\ rs = [on |-> FALSE] /\ slot = [tag |-> "empty"] /\ kf = <<>>
 
-EvInit == IsEv("i") /\ c' = InitCtx(Ev) /\ UNCHANGED <<bad, cov>>
+EvInit == IsEv("i") /\ c' = InitCtx(Ev) /\ UNCHANGED <<bad, cov>> /\ KeepSK
 
 EvStep ==
-  /\ IsEv("s")
+  /\ IsEv("s") /\ KeepSK
   /\ LET outs == StepSet(c)
          o == Best(c, outs, Ev)
          asp == Aspects(c, o, Ev)
@@ -138,7 +141,7 @@ EvStep ==
 
 \* a Step that panicked or hung: never a behaviour of the specification (C12)
 EvPanic ==
-  /\ IsEv("x") /\ UNCHANGED c
+  /\ IsEv("x") /\ UNCHANGED c /\ KeepSK
   /\ bad' = IF Len(bad) < MaxBad
             THEN Append(bad, [line |-> l, asp |-> {"panic"}, tag |-> Ev.what, pc |-> 0, f |-> 0, u |-> 0]) ELSE bad
   /\ cov' = Bump(cov, "REJECTED")
@@ -157,7 +160,7 @@ NoInterf(x, x2, i1, i2) ==
   /\ \A i \in 1 .. 27 : i \notin {i1, i2} => x2.post[i] = x.post[i]
   /\ x2.h = x.h /\ x2.rd = x.rd /\ x2.wr = x.wr /\ x2.pio = x.pio
 EvMirror ==
-  /\ IsEv("m") /\ UNCHANGED c
+  /\ IsEv("m") /\ UNCHANGED c /\ KeepSK
   /\ LET \* a pair whose instruction reads its own prefix byte as data legitimately differs
          \* in that byte ("apart from the prefix byte itself"): not comparable
          selfRead == Count(Ev.dd.rd, Ev.dd.pre[22]) > 1 \/ Count(Ev.fd.rd, Ev.fd.pre[22]) > 1
@@ -201,7 +204,7 @@ RunTarget == IF Ev.err = "ctx" THEN Ev.nacc ELSE -1     \* cancelled runs: stop 
 RunBegin ==
   /\ l <= Len(TraceLog) /\ Ev.e = "r" /\ ~rs.on /\ ~done
   /\ rs' = [on |-> TRUE, S |-> {RunStart(c, SchedOf(Ev.sched))}, D |-> {}, fuel |-> RunFuel]
-  /\ UNCHANGED <<l, c, bad, cov, done>>
+  /\ UNCHANGED <<l, c, bad, cov, done, slot, kf>>
 
 \* states still to be advanced: all live ones, or (cancelled run) those short of the access count
 RunGo == IF RunTarget < 0 THEN rs.S ELSE {x \in rs.S : x.n < RunTarget}
@@ -214,11 +217,11 @@ RunIter ==
          hits == IF RunTarget < 0 THEN {} ELSE {x \in rs.S : x.n = RunTarget}
      IN rs' = [on |-> TRUE, S |-> nx \ fin, fuel |-> rs.fuel - 1,
                D |-> IF RunTarget < 0 THEN rs.D \cup fin ELSE rs.D \cup hits]
-  /\ UNCHANGED <<l, c, bad, cov, done>>
+  /\ UNCHANGED <<l, c, bad, cov, done, slot, kf>>
 
 RunEnd ==
   /\ rs.on /\ (RunGo = {} \/ rs.fuel = 0)
-  /\ l' = l + 1 /\ done' = FALSE /\ rs' = NoRun
+  /\ l' = l + 1 /\ done' = FALSE /\ rs' = NoRun /\ KeepSK
   /\ LET bp == BpOf(Ev)
          all == IF RunTarget < 0 THEN rs.D ELSE rs.D \cup {x \in rs.S : x.n = RunTarget}
          cands == IF Ev.err = "ctx" THEN all ELSE {x \in all : Stops(x, bp) = Ev.err}
@@ -244,16 +247,46 @@ RunEnd ==
 EvRun == RunBegin \/ RunIter \/ RunEnd
 
 \* a Run that did not return (watchdog) - never a behaviour of a halting program (C12)
-EvRaise == IsEv("q") /\ c' = [c EXCEPT !.pend = PendOf(Ev.pend)] /\ UNCHANGED <<bad, cov>>
+EvRaise == IsEv("q") /\ c' = [c EXCEPT !.pend = PendOf(Ev.pend)] /\ UNCHANGED <<bad, cov>> /\ KeepSK
 
-EvPoke == IsEv("p") /\ c' = [c EXCEPT !.m = Overlay(Ev.cells, @)] /\ UNCHANGED <<bad, cov>>
+EvPoke == IsEv("p") /\ c' = [c EXCEPT !.m = Overlay(Ev.cells, @)] /\ UNCHANGED <<bad, cov>> /\ KeepSK
+
+----------------------------------------------------------------------------
+(* C07: transparency.  mark remembers the final state of the undisturbed   *)
+(* run; cmp relates the final state of an interrupted run to it: same      *)
+(* registers (minus R), flags, IFF state, mode, halted indication, and     *)
+(* memory outside the stack bytes below SP.                                *)
+EvMark == IsEv("mark") /\ slot' = c /\ UNCHANGED <<c, bad, cov, kf>>
+
+StackDepth == 64
+BelowSP(x, a) == W(x.r.SP - a) \in 1 .. StackDepth
+Transparent(a, b) ==
+  /\ \A n \in DOMAIN a.r : n = "R" \/ a.r[n] = b.r[n]
+  /\ a.halt = b.halt
+  /\ \A x \in DOMAIN a.m \cup DOMAIN b.m : BelowSP(a, x) \/ Peek(a, x) = Peek(b, x)
+
+\* Mode 0 is not transparent in this implementation (finding F3: the supplied RST/CALL
+\* pushes PC + the bytes fetched).  Such runs are recorded in kf, not in bad; the driver
+\* reports them as KNOWN-FINDING only while known_findings.json lists F3 as known.
+EvCmp ==
+  /\ IsEv("cmp") /\ UNCHANGED c /\ slot' = slot
+  /\ LET ok == Ev.parked = 1 /\ Transparent(slot, c)
+     IN IF ok THEN bad' = bad /\ kf' = kf /\ cov' = Bump(cov, "TRANSPARENT " \o Ev.kind)
+        ELSE IF Ev.kind = "im0"
+        THEN /\ bad' = bad /\ cov' = Bump(cov, "F3 non-transparent im0")
+             /\ kf' = IF Len(kf) < 5 THEN Append(kf, [line |-> l, id |-> "F3", k |-> Ev.k]) ELSE kf
+        ELSE /\ kf' = kf /\ cov' = Bump(cov, "REJECTED")
+             /\ bad' = IF Len(bad) < MaxBad
+                       THEN Append(bad, [line |-> l, asp |-> {"transp"}, tag |-> "TRANSP " \o Ev.kind,
+                                         pc |-> slot.r.PC, f |-> slot.r.F, u |-> Ev.k])
+                       ELSE bad
 
 Done ==
   /\ l = Len(TraceLog) + 1 /\ ~done
-  /\ PrintT(<<"TRACE-RESULT", ToJson([consumed |-> l - 1, bad |-> bad, cov |-> cov])>>)
-  /\ done' = TRUE /\ UNCHANGED <<l, c, bad, cov, rs>>
+  /\ PrintT(<<"TRACE-RESULT", ToJson([consumed |-> l - 1, bad |-> bad, cov |-> cov, kf |-> kf])>>)
+  /\ done' = TRUE /\ UNCHANGED <<l, c, bad, cov, rs, slot, kf>>
 
-TraceNext == EvInit \/ EvStep \/ EvRun \/ EvRaise \/ EvPoke \/ EvPanic \/ EvMirror \/ Done
+TraceNext == EvInit \/ EvStep \/ EvRun \/ EvRaise \/ EvPoke \/ EvMark \/ EvCmp \/ EvPanic \/ EvMirror \/ Done
 TraceSpec == TraceInit /\ [][TraceNext]_vars
 
 \* every line was consumed (a line no action can take would stop the run early)
